@@ -104,11 +104,47 @@ package metadata
 
 // ---- reduction of a controller (C01: name, tag, route prefix and description are those annotated; C13) ----
 // assumed frame: reducing a receiver fills the metadata cache and the serial provider only
-//@ func ReceiverMeta.Reduce trusted
+//@ func FuncReturnValue.Reduce trusted
 //@ modifies any(caching.MetadataCache), any(providers.SyncedProvider)
+//@ func FuncParam.Reduce trusted
+//@ modifies any(caching.MetadataCache), any(providers.SyncedProvider)
+// assumed: building the template-context map has no effect
+//@ func GetTemplateContextMetadata trusted
+// A reduced route carries what its annotations say (C01 identity, verb, route, hiding; C03/C04 its own security or,
+// without any, the inherited one - an error of any lookup fails the reduction; C06 one entry per parameter and result)
+//@ func ReceiverMeta.Reduce props C01,C03,C04,C06,C14
+//@ requires m.Annotations != nil
+//@ modifies any(caching.MetadataCache), any(providers.SyncedProvider)
+//@ ensures noVerb: implies(!annotations.hasAttr(*m.Annotations, "Method"), result1 != nil)
+//@ ensures verb: implies(result1 == nil, forall(k, 0, len(m.Annotations.attributes), implies(annotations.isFirst(*m.Annotations, "Method", k), string(result0.HttpVerb) == m.Annotations.attributes[k].Value && m.Annotations.attributes[k].Value != "")))
+//@ ensures ids: implies(result1 == nil, result0.OperationId == m.Name && result0.HasReturnValue == (len(m.RetVals) > 1) && len(result0.FuncParams) == len(m.Params) && len(result0.Responses) == len(m.RetVals))
+//@ ensures hide: implies(result1 == nil, result0.Hiding.Type == ite(annotations.hasAttr(*m.Annotations, "Hidden"), definitions.HideMethodAlways, definitions.HideMethodNever))
+//@ ensures route: implies(result1 == nil, implies(!annotations.hasAttr(*m.Annotations, "Route"), result0.RestMetadata.Path == "") && forall(k, 0, len(m.Annotations.attributes), implies(annotations.isFirst(*m.Annotations, "Route", k), result0.RestMetadata.Path == m.Annotations.attributes[k].Value)))
+//@ ensures secOwn: implies(result1 == nil && secCount(*m.Annotations) != 0, isSecOf(*m.Annotations, result0.Security))
+//@ ensures secInherited: implies(result1 == nil && secCount(*m.Annotations) == 0, result0.Security == parentSecurity)
+//@ ensures success: implies(result1 == nil && !annotations.hasAttr(*m.Annotations, "Response"), result0.ResponseSuccessCode == ite(len(m.RetVals) > 1, 200, 204) && result0.ResponseDescription == "")
+//@ loop 0 invariant 0 <= _n && _n <= len(m.RetVals) && len(responses) == _n && fresh(responses)
+//@ loop 1 invariant 0 <= _n && _n <= len(m.Params) && len(reducedParams) == _n && fresh(reducedParams) && len(responses) == len(m.RetVals)
 //@ func ControllerMeta.Reduce props C01,C13,C14
 //@ requires m.Struct.Annotations != nil
 //@ modifies any(caching.MetadataCache), any(providers.SyncedProvider)
 //@ ensures id: implies(result1 == nil, result0.Name == m.Struct.Name && result0.PkgPath == m.Struct.PkgPath && len(result0.Routes) == len(m.Receivers))
 //@ ensures prefix: implies(result1 == nil, implies(!annotations.hasAttr(*m.Struct.Annotations, "Route"), result0.RestMetadata.Path == "") && forall(k, 0, len(m.Struct.Annotations.attributes), implies(annotations.isFirst(*m.Struct.Annotations, "Route", k), result0.RestMetadata.Path == m.Struct.Annotations.attributes[k].Value)))
 //@ loop 0 invariant 0 <= _n && _n <= len(m.Receivers) && len(reducedReceivers) == _n && fresh(reducedReceivers)
+
+// ---- error responses (C06): one entry per distinct @ErrorResponse code, the first description wins, nothing dropped ----
+//@ spec errAttr(h annotations.AnnotationHolder, k int) bool = h.attributes[k].Name == "ErrorResponse"
+//@ func GetErrorResponses props C06,C14
+//@ requires routeAnnotations != nil
+//@ ensures err: implies(result1 == nil, forall(k, 0, len(routeAnnotations.attributes), implies(errAttr(*routeAnnotations, k), definitions.statusOK(routeAnnotations.attributes[k].Value))))
+// (completeness - every @ErrorResponse code has an entry - needs the preservation of an existential over the
+// appended list, which the solvers decide only in about a minute: left to the bounded stand-in fx_spec_C06)
+//@ ensures only: implies(result1 == nil, forall(r, 0, len(result0), exists(k, 0, len(routeAnnotations.attributes), errAttr(*routeAnnotations, k) && int(result0[r].HttpStatusCode) == definitions.statusOf(routeAnnotations.attributes[k].Value) && result0[r].Description == routeAnnotations.attributes[k].Description)))
+//@ ensures distinct: forall(r, 0, len(result0), forall(q, 0, r, result0[q].HttpStatusCode != result0[r].HttpStatusCode))
+//@ loop 0 invariant 0 <= _n && _n <= len(responseAttributes) && fresh(responses)
+//@ loop 0 invariant forall(i, 0, len(responseAttributes), responseAttributes[i] != nil)
+//@ loop 0 invariant forall(r, 0, len(responses), indom(encounteredCodes, responses[r].HttpStatusCode))
+//@ loop 0 invariant forall(c, runtime.HttpStatusCode, implies(indom(encounteredCodes, c), exists(i, 0, _n, definitions.statusOf(responseAttributes[i].Value) == int(c))))
+//@ loop 0 invariant forall(i, 0, _n, definitions.statusOK(responseAttributes[i].Value))
+//@ loop 0 invariant forall(r, 0, len(responses), exists(i, 0, _n, int(responses[r].HttpStatusCode) == definitions.statusOf(responseAttributes[i].Value) && responses[r].Description == responseAttributes[i].Description))
+//@ loop 0 invariant forall(r, 0, len(responses), forall(q, 0, r, responses[q].HttpStatusCode != responses[r].HttpStatusCode))
